@@ -55,8 +55,18 @@ def place(cls, par_for_coords, chr_prefix, k):
     g = PAR[par_for_coords or "grch37"]
     pre = "chr" if chr_prefix else ""
     if cls == "auto":
+        # every other autosomal row sits at coordinates that would be pseudo-autosomal on a sex chromosome (PAR2-Y,
+        # PAR1-X, PAR2-X windows in turn): the PAR rules concern X and Y only (seeded change C01o let the PAR2 coordinate
+        # test escape the chromosome test through operator precedence)
+        if k % 2 == 1:
+            lo, _hi = g[["PAR2Y", "PAR1X", "PAR2X"][(k // 2) % 3]]
+            return pre + "1", lo + 100 * k, lo + 100 * k + 90
         return pre + "1", 1000 + 1000 * k, 1500 + 1000 * k
     if cls in ("X", "Y"):
+        if k % 4 == 2:
+            # inside the other sex chromosome's PAR2 window: an ordinary bin of this chromosome
+            lo, _hi = g["PAR2Y" if cls == "X" else "PAR2X"]
+            return pre + cls, lo + 1000 * (k // 4) + 10, lo + 1000 * (k // 4) + 100
         if k % 4 == 1:
             # abutting the end of PAR1 from outside: an ordinary sex-chromosome bin
             hi1 = g["PAR1" + cls][1]
